@@ -17,6 +17,7 @@ from __future__ import annotations
 import ast
 from typing import Any
 
+from .. import cfg as cfgmod
 from .. import isa
 from ..bits import TOP, BitVec, show, show_bit
 from ..core import REPO, AnalysisError, Ctx
@@ -339,7 +340,31 @@ def flag_api_and_snapshot_masks(ctx: Ctx, py: PyProgram) -> None:
             if arg is None or unparse(arg) != "value":
                 ctx.violation("C08.1/flag-api", f"{isa.EMU_PY}::{q}::value rewritten", f"set_flag passes `{unparse(arg) if arg is not None else '?'}` to Registers.set instead of the value itself: writing a flag by name and by register differ "
                               "(e.g. value 2: by register -> bit 0 = 0 as in the Rust core, by name -> 1)", f"{isa.EMU_PY}:{fn.lineno}")
-    ctx.instance("C08.1/flag-api", "set_flag / get_flag delegate to Registers.set / get with the value unchanged", n, 2)
+    # by-name accessors (the LLIL evaluator's SET_REG / REG path) are the register accessors under another name as well, on every path:
+    # the write is forwarded whatever the register currently holds (a write of IL with the byte it already holds still clears IH)
+    for q, callee in (("Registers.set_by_name", "self.set"), ("Registers.get_by_name", "self.get"), ("Registers.set_flag", "self.set"), ("Registers.get_flag", "self.get")):
+        fn = py.func(isa.EMU_PY, q)
+        calls = [c for c in ast.walk(fn) if isinstance(c, ast.Call) and unparse(c.func) == callee]
+        n += 1
+        if q.endswith("_by_name") and len(calls) != 1:
+            ctx.violation("C08.1/flag-api", f"{isa.EMU_PY}::{q}::delegation", f"{q} does not delegate to {callee}(reg, ..) exactly once", f"{isa.EMU_PY}:{fn.lineno}")
+            continue
+        if not calls:
+            continue
+        if "set" in q.split(".")[1][:3]:
+            the = calls[-1]
+            arg = the.args[1] if len(the.args) > 1 else None
+            prm = [a_.arg for a_ in fn.args.args if a_.arg != "self"]
+            if q.endswith("_by_name") and (arg is None or unparse(arg) != (prm[1] if len(prm) > 1 else "value")):
+                ctx.violation("C08.1/flag-api", f"{isa.EMU_PY}::{q}::value rewritten", f"{q} passes `{unparse(arg) if arg is not None else '?'}` to Registers.set instead of the value itself", f"{isa.EMU_PY}:{fn.lineno}")
+            g = cfgmod.build_py(fn, q)
+            state_reads = lambda e: any((isinstance(x, ast.Call) and unparse(x.func) in ("self.get", "self.get_by_name", "self.get_flag")) or (isinstance(x, ast.Attribute) and unparse(x) == "self._values") for x in ast.walk(e))
+            for a, pol, _o in g.guards_of(g.node_of(the)):
+                if isinstance(a, ast.AST) and state_reads(a):
+                    ctx.violation("C08.1/flag-api", f"{isa.EMU_PY}::{q}::write skipped depending on the current contents",
+                                  f"{q} forwards to Registers.set only when `{unparse(a)[:70]}` is {str(pol).lower()}: the write is skipped depending on what the register holds, but a sub-register write has effects beyond "
+                                  "its own bits (IL <- the byte it already holds must still clear IH)", f"{isa.EMU_PY}:{the.lineno}")
+    ctx.instance("C08.1/flag-api", "set_flag / get_flag / set_by_name / get_by_name delegate to Registers.set / get, value unchanged, on every path", n, 6)
     # (b)
     rel = "sc62015/pysc62015/stepper.py"
     mod = py.module(rel)
@@ -378,7 +403,8 @@ def snapshot_blob(ctx: Ctx, py: PyProgram, rs: RustProgram) -> None:
     """Register values survive the snapshot blob: (a) the packed layout and its little-endian pack/unpack pairs (rule shared with C16);
     (b) the Rust restore writes every layout register *whole*, through the name looked up from the layout - a restore through
     sub-registers is not the identity (writing IL clears IH)."""
-    from .c16 import layout
+    from .c16 import layout, temp_key_format
     layout(ctx, py, rs)
+    temp_key_format(ctx, py, rs)       # the scratch registers travel in the metadata, keyed by name: writer and reader spellings agree
     from .c16 import rust_apply_whole
     rust_apply_whole(ctx, rs, "C08.4/snapshot-apply", "C08.4/rust-snapshot-apply")
